@@ -31,6 +31,7 @@ mod optin_inproc;
 mod optin_e2e;
 mod budgets_corr;
 mod attrs_corr;
+mod braces_corr;
 mod corpus;
 mod gen;
 mod sweep;
@@ -113,6 +114,7 @@ fn main() {
         "vertical" => vertical_corr::run(&tier, seed, &out),
         "budgets" => budgets_corr::run(&tier, seed, &out),
         "attrs" => attrs_corr::run(&tier, seed, &out),
+        "braces" => braces_corr::run(&tier, seed, &out),
         "optin-dump" => optin_corr::dump(&args[2], args.get(3)),
         "boundary" => boundary::main(&args[2..]),
         "c03" => c03::run(&tier, seed, &out),
